@@ -576,4 +576,19 @@ theorem c02_clauses_hold (i : CertInputs)
     reqTime, spki_is_rfc, enumOf]
   cases i.p.isCa <;> simp [derive_reqKeyId]
 
+theorem timeFieldOk_reqTime (dt : DateTime) : timeFieldOk dt (reqTime dt) = true := by
+  unfold timeFieldOk reqTime Theorems.C09.utcYear
+  simp only [beq_self_eq_true, Bool.true_and]
+
+/-- C09 on a whole certificate -/
+theorem c09_cert_clauses_hold (i : CertInputs)
+    (hinv : certInvalid i.p i.issuer = none)
+    (hnp : certPanics i.p i.issuer = false)
+    (hc : ∀ e ∈ i.p.customExts, e.oid ∉ knownOids)
+    (hsize : (encode (tbsCertificate i.H i.p i.subject i.issuer)).length < 256 ^ 126) :
+    c09CertClauses i (encode (tbsCertificate i.H i.p i.subject i.issuer)) = [] := by
+  unfold c09CertClauses
+  rw [tbs_decodes i hinv hnp hc hsize]
+  simp only [modelTbs, clause, timeFieldOk_reqTime, if_true, List.nil_append]
+
 end Rcgen.Proofs.CertDecode
